@@ -173,8 +173,57 @@ def sval(prog, fn, t, depth=0):
     raise CannotInterpret("cannot interpret string expression %s in %s" % (tree_str(t)[:120], fn.path))
 
 
+_CLASS_CACHE = {}
+
+
+def _move_classes(fn):
+    """String values that are moved from local to local (an accumulator threaded through a fold closure: acc -> closure
+    parameter -> `+=` -> return value -> acc) are one builder.  returns find(local) -> representative"""
+    key = id(fn)
+    if key in _CLASS_CACHE:
+        return _CLASS_CACHE[key]
+    parent = {}
+
+    def find(x):
+        while parent.get(x, x) != x:
+            parent[x] = parent.get(parent[x], parent[x])
+            x = parent[x]
+        return x
+
+    def union(a, b):
+        ra, rb = find(a), find(b)
+        if ra != rb:
+            parent[max(ra, rb)] = min(ra, rb)
+
+    def stringy(n):
+        ty = fn.local_ty(n)
+        return ty in ("std::string::String", "?", "") or ty.endswith("::String")
+    for bi in fn.cfg():
+        for st in fn.blocks[bi]["stmts"]:
+            if st["place"]["proj"] or st["rv"]["k"] != "use":
+                continue
+            src = op_place(st["rv"]["op"])
+            dst = st["place"]["local"]
+            if src is None or not stringy(dst):
+                continue
+            if not src["proj"]:
+                if stringy(src["local"]) and fn.local_ty(src["local"]) != "?" or fn.local_ty(dst) == "std::string::String":
+                    if stringy(src["local"]):
+                        union(dst, src["local"])
+            elif len(src["proj"]) == 1 and src["proj"][0]["k"] == "field":
+                # x = move t.K with t = (a, b, ..): the argument tuple of an inlined closure call
+                ds = fn.whole_defs(src["local"])
+                if len(ds) == 1 and ds[0][0] == "stmt" and ds[0][1]["k"] == "aggregate" and ds[0][1]["kind"].get("agg") == "tuple" and src["proj"][0]["idx"] < len(ds[0][1]["ops"]):
+                    o = op_place(ds[0][1]["ops"][src["proj"][0]["idx"]])
+                    if o is not None and not o["proj"] and stringy(o["local"]):
+                        union(dst, o["local"])
+    _CLASS_CACHE[key] = find
+    return find
+
+
 def _string_builder_local(fn):
     """local that is built by String::from / String::new and extended by add_assign / push_str"""
+    find = _move_classes(fn)
     cands = collections.Counter()
     for bi, t in fn.calls(lambda c, t: c.endswith("AddAssign<&str>>::add_assign") or c.endswith("String::push_str")):
         p = op_place(t["args"][0])
@@ -189,7 +238,7 @@ def _string_builder_local(fn):
                 if inner["proj"] and len(d2) == 1 and d2[0][0] == "stmt" and d2[0][1]["k"] in ("ref", "use"):
                     p = inner
                     continue
-                cands[inner["local"]] += 1
+                cands[find(inner["local"])] += 1
                 break
             if len(ds) == 1 and ds[0][0] == "stmt" and ds[0][1]["k"] == "use":
                 p = op_place(ds[0][1]["op"])
@@ -201,12 +250,13 @@ def _string_builder_local(fn):
 def _builder_of(fn, op, builders, hops=0):
     """the string-builder local an operand is a view of (`&inner`, `&*inner`, `inner.as_str()`), else None"""
     pl = op_place(op)
+    find = _move_classes(fn)
     for _ in range(10):
         if pl is None:
             return None
         n = pl["local"]
-        if n in builders and all(e["k"] == "deref" for e in pl["proj"]):
-            return n
+        if find(n) in builders and all(e["k"] == "deref" for e in pl["proj"]):
+            return find(n)
         ds = fn.whole_defs(n)
         if len(ds) != 1 or len(fn.defs().get(n, [])) != 1:
             return None
@@ -282,9 +332,27 @@ def emissions(prog, fn):
         elem = ("ok", ("call", "<I as std::iter::Iterator>::next", (R.operand(t["args"][0]),), -1))
         foreach[tgt].append((order.get(bi, 0), bi, [("call", "foreach:" + cl[1][1], (cl, elem), fn.path, bi, ())]))
 
+    find = _move_classes(fn)
+    members = {}
+    for n_ in range(len(fn.locals)):
+        members.setdefault(find(n_), []).append(n_)
+
+    def class_defs(b):
+        out = []
+        for m in members.get(b, [b]):
+            for d_ in fn.whole_defs(m):
+                if d_[2] not in fn.cfg():
+                    continue
+                if d_[0] == "stmt" and d_[1]["k"] == "use":
+                    sp = op_place(d_[1]["op"])
+                    if sp is not None and (find(sp["local"]) == b or (sp["proj"] and len(members.get(b, [])) > 1)):
+                        continue            # a move inside the class
+                out.append(d_)
+        return out
+
     def tokens_of(b, seen=()):
         toks = list(foreach.get(b, []))
-        for kind, payload, bi, si, place in fn.whole_defs(b):
+        for kind, payload, bi, si, place in class_defs(b):
             t = R._call(payload, bi, 0, frozenset()) if kind == "call" else R.rvalue(payload)
             st = strip(t)
             if st[0] == "call" and st[1].endswith("String::new"):
